@@ -6,22 +6,22 @@ HERE = os.path.dirname(os.path.dirname(os.path.abspath(__file__)))
 TECH = "contract-based deductive verification of the real code: "
 
 CLAIMS = {
- "C01": ("Verus V-SER/V-DSER (serializers write exactly the encoding function; round-trip lemmas parse(enc(v)++rest)=v by induction over trait instances and sequence length) + Verus V-DESER/V-DERIVE (readers, cursors, generic sums, ranges, derive samples, deep-sequence loops and the zero-copy sequence reader skeleton proved against a format grammar for all payload types, offsets and lengths) + Kani round-trip lemmas per instantiation (complete for fixed-size types with a symbolic start offset, bounded for sequences)",
+ "C01": ("Verus V-HEADER (entry points: header check followed by the grammar's parse; whole-stream round-trip lemma) + Verus V-SER/V-DSER (Vec<T>/Box<[T]> dispatch implementations incl. their trait-level round-trip instances for deep elements; serializers write exactly the encoding function; round-trip lemmas parse(enc(v)++rest)=v by induction over trait instances and sequence length) + Verus V-DESER/V-DERIVE (readers, cursors, generic sums, ranges, derive samples, deep-sequence loops and the zero-copy sequence reader skeleton proved against a format grammar for all payload types, offsets and lengths) + Kani round-trip lemmas per instantiation (complete for fixed-size types with a symbolic start offset, bounded for sequences)",
          "5 C01", "Verus: assumed contracts of primitive impls and unsafe helpers (checked by Kani for listed types); Kani: enumerated instantiations, sequence bounds stated per harness; the SerializeInner/WriteWithNames trait cycle is cut mechanically for Verus (WriteWithNames::write extracted as a free function), writers overriding write are Kani-only; to_ne_bytes/from_ne_bytes inverse is an axiom in Verus, checked by Kani"),
  "C02": ("Verus V-DESER eps contracts against the same grammar as full copy (agreement is by construction of the shared parse) + Kani eps round-trip lemmas on placed buffers",
          "5 C02", "start offsets of Kani eps lemmas are concrete (listed per harness); all-offset padding carried by V-PAD/V-WRITE/V-DESER align contracts"),
  "C03": ("Kani lemmas on the real unsafe carvers: address, length, bounds, alignment, non-null of every borrowed part against the reference block list",
          "5 C03", "allocation-count half of the statement is not decided (no contract speaks about the allocator); element types and lengths enumerated/bounded"),
- "C04": ("Verus V-TYPEINFO: every TypeHash/AlignHash implementation (built-in, incl. compiler-expanded macro impls) feeds exactly the published recipe, for all type parameters; constructor feeds pairwise distinct and injective (lemmas) + Kani closed-term digests over the near-miss universe and cross-type header rejection",
+ "C04": ("Verus V-HEADER (a stream written for T and offered to a type U with a different type-hash recipe is refused with the type-hash error: lemma over check_header's contract) + Verus V-TYPEINFO: every TypeHash/AlignHash implementation (built-in, incl. compiler-expanded macro impls) feeds exactly the published recipe, for all type parameters; constructor feeds pairwise distinct and injective (lemmas) + Kani closed-term digests over the near-miss universe and cross-type header rejection",
          "5 C04", "xxh3 assumed collision-free on feeds; str/usize hash encodings assumed injective and prefix-free (std); the program quantifier is an enumerated universe (nm.rs); derive output is checked by Kani digests, not by Verus"),
  "C05": ("Verus V-DERIVE/V-DSER (rustc-expanded derive output of four sample definitions, both halves, generic in their parameters, with round-trip lemmas) + rustc type-checks the derive output of every sample definition + Kani lemmas per enumerated derive sample: round trips in both modes (via C01/C02 lemmas), units, tag tables, and the substitution rule as TypeId equalities",
          "5 C05", "the quantifier over all programs is not covered: enumerated definitions only (types.rs, nm.rs); the proc-macro itself is outside both verifiers"),
- "C06": ("Kani lemmas: emitted bytes equal an independent reference encoder of format 1.1 (payload for every instantiation of C01, header incl. digests recomputed from the recipe) + Verus V-TYPEINFO (hash recipes) and V-DESER (readers accept exactly the grammar)",
+ "C06": ("Verus V-HEADER (write_header / serialize_on_field_write append exactly the published header followed by the encoding; whole-stream round-trip lemma) + Kani lemmas: type hashes of all primitives and of one instance of every built-in constructor equal the digests of the published names (pinned); emitted bytes equal an independent reference encoder of format 1.1 (payload for every instantiation of C01, header incl. digests recomputed from the recipe) + Verus V-TYPEINFO (hash recipes) and V-DESER (readers accept exactly the grammar)",
          "5 C06", "the reference encoder, the grammar and the recipes are fixed text in /verif and play the role of the corpus; no stored files; 64-bit little-endian target"),
  "C07": ("Verus V-PAD (padding formula, all offsets x all power-of-two units), V-WRITE (align loop, position tracking), V-DESER (reader align) + Kani byte-count and unit lemmas",
          "5 C07", "usize is 64 bits; streams shorter than the address space (precondition); units of enumerated types only in Kani, generic MaxSizeOf power-of-two is a trait-level contract"),
- "C10": ("Kani lemma over all 2^232 values of the 29 fixed header bytes against the decision table of the statement, both modes",
-         "5 C10", "String::from_utf8 stubbed (std validator trusted); enumerated types"),
+ "C10": ("Verus V-HEADER: check_header and both blanket entry points (deserialize_full, deserialize_eps) return exactly the row of the header decision table of the statement - for all types T, all readers obeying the reader contract, all header bytes and stream lengths - and write_header emits exactly the header the table accepts (lemma) + Kani lemma over all 2^232 values of the 29 fixed header bytes on the unmodified crate, both modes",
+         "5 C10", "Verus: primitives and String are assumed contracts, xxh3 is an uninterpreted digest of the hash feed, the cookies are opaque constants (their bytes are Kani's); Kani: String::from_utf8 stubbed (std validator trusted), enumerated types"),
  "C11": ("Verus V-DESER/V-DERIVE: Short parse => Err(ReadError) for every reader obeying the contract, and the trait-level prefix lemma (every strict prefix of a successful parse is Short) proved for all impls under contract and for deep sequences of any length + Kani cut lemmas on exact-size prefixes, both modes",
          "5 C11", "file-backed entry points (load_full, mmap) not reachable; eps bounds-check panics whitelisted by description as the statement allows"),
  "C12": ("Kani placement lemmas: Ok iff every reference block lands on a multiple of its unit, over symbolic base residues; V-DESER SliceWithPos::align contract",
@@ -38,8 +38,8 @@ CLAIMS = {
          "5 C17", "compile-time rejection (a property of all programs) is not addressed"),
  "C18": ("Kani lemmas on the real SchemaWriter: same bytes as plain serialization, rows in pre-order, within the stream, nesting without partial overlap, leaf rows tile the stream, recorded alignments hold",
          "5 C18", "alloc::fmt::format stubbed (string contents are not part of the property); payload-level (ROOT row) only; CSV/debug rendering reduced to the in-range property of row offsets"),
- "C19": ("Kani per-operation lemmas from an arbitrary reachable state against the real std::io::Cursor<Vec<u8>> as oracle (seek complete; read/write bounded)",
-         "5 C19", "content <= 6 bytes, read/write <= 3-5 bytes, position <= 20 (40 thorough); histories of any length by induction over the state invariant"),
+ "C19": ("Verus V-CURSOR: every operation of AlignedCursor except seek (new, with_capacity, read, write, flush, set_position, position, len, is_empty, into_parts, stream_position) preserves the representation invariant and has the effect of std::io::Cursor<Vec<u8>> on the abstract contents/position - for all alignment types, contents, positions and buffers, hence for histories of any length + Kani per-operation lemmas from an arbitrary reachable state against the real std::io::Cursor<Vec<u8>> as oracle (seek complete over u64 x i64; read/write bounded)",
+         "5 C19", "Verus: the memory image of Vec<T> (bytes_of), all-zero default of the alignment types and the two unsafe byte views are assumed (Kani checks them on A16/A64 within its bounds); seek is Kani-only (Verus loses *self at the join of a guarded match arm that assigns through &mut self); the address-alignment clause is Kani's; Kani: content <= 6 bytes, read/write <= 3-5 bytes, position <= 20 (40 thorough)"),
 }
 
 TECHNIQUE = {
@@ -50,7 +50,7 @@ TECHNIQUE = {
  "C05": "Verus contracts on rustc-expanded derive output of sample definitions + Kani lemma harnesses per sample (round trips, units, tags, TypeId equalities of the substitution rule)",
  "C06": "Kani lemma harnesses: byte equality with an independent reference encoder (header included) + Verus contracts on hash recipes and readers",
  "C07": "Verus proof of the padding formula (bit-vector + arithmetic lemmas), loop invariant of the padding writer, reader align contracts + Kani byte-count and unit lemmas",
- "C10": "Kani lemma harness, complete: all 29 fixed header bytes symbolic against the decision table, on the real check_header",
+ "C10": "Verus contract on check_header / write_header / the blanket Deserialize and Serialize implementations against a header decision table written from the statement (all T, all readers, all header bytes) + Kani lemma harness, complete: all 29 fixed header bytes symbolic against the same table, on the unmodified crate",
  "C11": "Verus contracts (Short => ReadError) and the trait-level prefix lemma proved per implementation and by induction for sequences + Kani cut lemma harnesses",
  "C12": "Kani placement lemma harnesses over symbolic base residues on the real address check",
  "C13": "Verus contracts on the position-tracking writer, the padding loop and every serializer under contract (error propagation, prefix-of-the-encoding on failure) + Kani failing/short writer lemma harnesses incl. the real entry points",
@@ -59,7 +59,7 @@ TECHNIQUE = {
  "C16": "Kani lemma harnesses: byte equality of slice / iterator / vector serializations, lying iterators; Verus/Kani hash equality",
  "C17": "Kani lemma harnesses: the zero-copy run-time check panics before any write (hand-written and derived wrongly declared types); must-fail canary",
  "C18": "Kani lemma harnesses on the real SchemaWriter against plain serialization and row geometry",
- "C19": "Kani per-operation lemma harnesses from an arbitrary reachable state against std Cursor semantics (model validated against the real std::io::Cursor)",
+ "C19": "Verus contracts on the operations of AlignedCursor (representation invariant + abstract contents/position equal to the std Cursor specification written from the statement; unbounded) + Kani per-operation lemma harnesses from an arbitrary reachable state against the real std::io::Cursor",
 }
 
 NOT_APPLICABLE = {
@@ -93,7 +93,7 @@ def main():
                   "baseline_off_cmd": "cd /repo && cargo test --workspace --no-fail-fast --offline",
                   "source_commits": [], "add_only": True},
         "engines": [
-            {"name": "verus", "path": "contracts/ + extract/ + lib/verus_backend.py", "serves_properties": ["C01","C02","C03","C04","C05","C06","C07","C11","C12","C13","C14","C15"], "kind_free_text": "SMT-based deductive verifier on mechanically extracted real functions"},
+            {"name": "verus", "path": "contracts/ + extract/ + lib/verus_backend.py", "serves_properties": ["C01","C02","C03","C04","C05","C06","C07","C10","C11","C12","C13","C14","C15","C19"], "kind_free_text": "SMT-based deductive verifier on mechanically extracted real functions"},
             {"name": "kani", "path": "kani-harness/ + lib/kani_backend.py", "serves_properties": sorted(CLAIMS.keys()), "kind_free_text": "CBMC-based lemma harnesses over the unmodified crate (path dependency on /repo)"},
         ],
         "checks": checks,
